@@ -96,7 +96,13 @@ def deref_shapes():
             ("named2_field_level", "", "pub struct S { pub a: Side, #[deref(forward)] #[deref_mut(forward)] pub b: Inner }",
              "S { a: any_side(), b: any_inner() }", "b"),
             ("named2_ignore_other", "#[deref(forward)]\n#[deref_mut(forward)]\n",
-             "pub struct S { #[deref(ignore)] #[deref_mut(ignore)] pub a: Inner, pub b: Inner }", "S { a: any_inner(), b: any_inner() }", "b")):
+             "pub struct S { #[deref(ignore)] #[deref_mut(ignore)] pub a: Inner, pub b: Inner }", "S { a: any_inner(), b: any_inner() }", "b"),
+            # `forward` on the struct, the bare marker on the selected field: the marker selects, it does not switch forwarding off
+            ("tuple1_struct_forward_field_marker", "#[deref(forward)]\n#[deref_mut(forward)]\n",
+             "pub struct S(#[deref] #[deref_mut] pub Inner);", "S(any_inner())", "0"),
+            ("named3_struct_forward_field_marker", "#[deref(forward)]\n#[deref_mut(forward)]\n",
+             "pub struct S { #[deref(ignore)] #[deref_mut(ignore)] pub a: Side, #[deref] #[deref_mut] pub b: Inner, #[deref(ignore)] #[deref_mut(ignore)] pub c: Inner }",
+             "S { a: any_side(), b: any_inner(), c: any_inner() }", "b")):
         decl = "#[derive(Clone, Copy, PartialEq, Debug, derive_more::Deref, derive_more::DerefMut)]\n" + top + body
         src = """    #[kani::proof]
     fn forwarded_deref_is_what_the_field_derefs_to() {
